@@ -60,7 +60,7 @@ func c06GatedX(n, m int, batch, info bool, optConc int, restart bool, b Bounds) 
 				}
 			}
 			body := func() {
-				srv := jrpc2.NewServer(anyAssigner{h.handler()}, &jrpc2.ServerOptions{Concurrency: optConc})
+				srv := jrpc2.NewServer(namerAssigner{anyAssigner{h.handler()}}, &jrpc2.ServerOptions{Concurrency: optConc})
 				if restart {
 					lib0, peer0, _ := NewPipe(PipeOpts{Name: "srv0", CloseUnblocksRecv: true, Quiet: true})
 					srv.Start(lib0)
@@ -129,6 +129,13 @@ func c06GatedX(n, m int, batch, info bool, optConc int, restart bool, b Bounds) 
 					case "h_exit":
 						running--
 						finished++
+					case "names":
+						// the assigner's method list is read only by the built-in rpc.serverInfo, i.e. this is a
+						// built-in handler invocation at work: it needs a slot like any other
+						Hit("C06.R1")
+						if running+1 > n {
+							v = append(v, Viol{"C06.R1", fmt.Sprintf("the built-in rpc.serverInfo is executing while %d handlers are, Concurrency %d", running, n)})
+						}
 					case "quiet":
 						Hit("C06.R2")
 						want := m - finished
@@ -509,4 +516,13 @@ func c06Scenarios(tier string) []*Scenario {
 		out = append(out, c06Gated(ncpu, ncpu+1, true, false, -1, Bounds{0, 0, 0}))
 	}
 	return out
+}
+
+// namerAssigner adds an observable method list: the only hook inside the built-in rpc.serverInfo.
+type namerAssigner struct{ anyAssigner }
+
+func (namerAssigner) Names() []string {
+	vs.Yield("names")
+	vs.Note("names")
+	return []string{"m"}
 }
